@@ -378,7 +378,8 @@ def run_unit(unit_name, index_tuple=None, with_probes=True, params=None):
                        'props': props, 'message': 'verus: ' + res.reason, 'rendered': res.reason, 'needs_witness': True}]
         res.rejected = True
         res.status = 'failed'
-    if with_probes and res.status in ('ok', 'failed') and not res.degraded and not getattr(res, 'rejected', False):
+    # vacuity probes only matter for a unit that verified; on a failing unit they add nothing and can run the solver to its time limit
+    if with_probes and res.status == 'ok' and not res.degraded and not getattr(res, 'rejected', False):
         _run_probes(res, unit, ix)
     res.wall_s = round(time.time() - t0, 2)
     return res
